@@ -5,6 +5,11 @@ import (
 	"encoding/json"
 	"errors"
 	"fmt"
+	corazahttp "github.com/corazawaf/coraza/v3/http"
+	"io"
+	"mime/multipart"
+	"net/http"
+	"net/http/httptest"
 	"os"
 	"path/filepath"
 	"sort"
@@ -330,6 +335,132 @@ func C20(run *vf.Run) {
 		}
 	}
 	c20Audit(run)
+	c20Truncated(run)
+	c20HandlerPanic(run)
+}
+
+// c20Truncated: a multipart body cut at every offset. Go's mime/multipart is the reference reader: where it
+// reports a failure other than "ended in the middle of a part" (which the library tolerates on purpose: a body
+// cut at the limit under ProcessPartial looks like that) the failure must be reported - REQBODY_ERROR,
+// MULTIPART_STRICT_ERROR or an error returned by ProcessRequestBody - and no temporary file may be left.
+func c20Truncated(run *vf.Run) {
+	full := "--X\r\nContent-Disposition: form-data; name=\"a\"\r\n\r\nv1\r\n--X\r\nContent-Disposition: form-data; name=\"f\"; filename=\"x.txt\"\r\nContent-Type: text/plain\r\n\r\nfile-data\r\n--X--\r\n"
+	up, _ := os.MkdirTemp("", "verif-c20up-")
+	defer os.RemoveAll(up)
+	text := fmt.Sprintf("SecRuleEngine On\nSecRequestBodyAccess On\nSecUploadDir %s\nSecUploadKeepFiles Off\nSecRule REQBODY_ERROR|MULTIPART_STRICT_ERROR \"!@eq 0\" \"id:20,phase:2,pass,nolog\"\n", up)
+	w, err := coraza.NewWAF(coraza.NewWAFConfig().WithDirectives(text))
+	if err != nil {
+		run.Inconclusive("truncated-multipart configuration rejected: %v", err)
+		return
+	}
+	defer closeAny(w)
+	for cut := 1; cut <= len(full); cut++ {
+		body := full[:cut]
+		// reference classification
+		kind := "complete"
+		mr := multipart.NewReader(strings.NewReader(body), "X")
+		for {
+			p, err := mr.NextPart()
+			if err == io.EOF {
+				break
+			}
+			if err != nil {
+				if errors.Is(err, io.ErrUnexpectedEOF) {
+					kind = "cut-inside-a-part"
+				} else {
+					kind = "malformed"
+				}
+				break
+			}
+			if _, err := io.ReadAll(p); err != nil {
+				if errors.Is(err, io.ErrUnexpectedEOF) {
+					kind = "cut-inside-a-part"
+				} else {
+					kind = "malformed"
+				}
+				break
+			}
+		}
+		flagged := false
+		tx := w.NewTransaction()
+		tx.ProcessURI("/p", "POST", "HTTP/1.1")
+		tx.AddRequestHeader("Content-Type", "multipart/form-data; boundary=X")
+		tx.ProcessRequestHeaders()
+		_, _, werr := tx.WriteRequestBody([]byte(body))
+		it, perr := tx.ProcessRequestBody()
+		for _, mr := range tx.MatchedRules() {
+			if mr.Rule().ID() == 20 {
+				flagged = true
+			}
+		}
+		if werr != nil || perr != nil || it != nil {
+			flagged = true
+		}
+		tx.ProcessLogging()
+		_ = tx.Close()
+		ents, _ := os.ReadDir(up)
+		run.Eval(fmt.Sprintf("truncated-%d-%s", cut, kind))
+		if len(ents) > 0 {
+			run.Violate(vf.Violation{Signature: "fs:temp-file-left|truncated-multipart", What: fmt.Sprintf("a multipart body cut after %d of %d bytes left %d file(s) in the upload directory after Close", cut, len(full), len(ents)),
+				Replay: map[string]any{"family": "truncated-multipart", "cut": cut, "body": body}})
+			for _, e := range ents {
+				_ = os.Remove(filepath.Join(up, e.Name()))
+			}
+			return
+		}
+		if kind == "malformed" && !flagged {
+			run.Violate(vf.Violation{Signature: "fs:failure-swallowed|truncated-multipart", What: fmt.Sprintf("a multipart body cut after %d of %d bytes (%q) cannot be read to its end (mime/multipart reports a failure that is not a cut inside a part), yet REQBODY_ERROR / MULTIPART_STRICT_ERROR stay 0 and no call returned an error or interruption",
+				cut, len(full), body[max(0, cut-24):]), Replay: map[string]any{"family": "truncated-multipart", "cut": cut, "body": body, "directives": text}})
+			return
+		}
+	}
+}
+
+// c20HandlerPanic: behind the net/http middleware a handler that panics (net/http recovers, e.g. ErrAbortHandler of
+// a reverse proxy) must not leave the transaction's temporary files behind.
+func c20HandlerPanic(run *vf.Run) {
+	tmp, _ := os.MkdirTemp("", "verif-c20mw-")
+	defer os.RemoveAll(tmp)
+	up := filepath.Join(tmp, "up")
+	_ = os.MkdirAll(up, 0o755)
+	old := os.Getenv("TMPDIR")
+	os.Setenv("TMPDIR", tmp)
+	defer os.Setenv("TMPDIR", old)
+	text := fmt.Sprintf("SecRuleEngine On\nSecRequestBodyAccess On\nSecRequestBodyLimit 100000\nSecRequestBodyInMemoryLimit 16\nSecUploadDir %s\nSecUploadKeepFiles Off\n", up)
+	w, err := coraza.NewWAF(coraza.NewWAFConfig().WithDirectives(text))
+	if err != nil {
+		run.Inconclusive("handler-panic configuration rejected: %v", err)
+		return
+	}
+	defer closeAny(w)
+	ts := httptest.NewServer(corazahttp.WrapHandler(w, http.HandlerFunc(func(rw http.ResponseWriter, r *http.Request) {
+		_, _ = io.ReadAll(r.Body)
+		panic(http.ErrAbortHandler)
+	})))
+	defer ts.Close()
+	body := "--X\r\nContent-Disposition: form-data; name=\"f\"; filename=\"x.txt\"\r\n\r\n" + strings.Repeat("d", 200) + "\r\n--X--\r\n"
+	req, _ := http.NewRequest("POST", ts.URL+"/p", strings.NewReader(body))
+	req.Header.Set("Content-Type", "multipart/form-data; boundary=X")
+	client := &http.Client{Timeout: 10 * time.Second, Transport: &http.Transport{DisableKeepAlives: true}}
+	if resp, err := client.Do(req); err == nil {
+		_, _ = io.Copy(io.Discard, resp.Body)
+		resp.Body.Close()
+	}
+	time.Sleep(200 * time.Millisecond) // the server goroutine unwinds after the client saw the connection drop
+	var left []string
+	for _, d := range []string{tmp, up} {
+		ents, _ := os.ReadDir(d)
+		for _, e := range ents {
+			if !e.IsDir() {
+				left = append(left, e.Name())
+			}
+		}
+	}
+	run.Eval("handler-panic")
+	if len(left) > 0 {
+		run.Violate(vf.Violation{Signature: "fs:temp-file-left|handler-panic", What: fmt.Sprintf("the wrapped handler panicked (http.ErrAbortHandler) after a multipart upload larger than the in-memory limit: %v left behind in the temporary / upload directories", left),
+			Replay: map[string]any{"family": "handler-panic", "directives": text}})
+	}
 }
 
 // c20Audit: failure of audit writing must surface as a log entry (ProcessLogging returns nothing).
